@@ -14,9 +14,13 @@ package main
 //	    requested extras labels no edge out of that node
 //	P4  every node is reachable from the root node along edges
 //	P5  node 0 is the requested root version
+//	T   the real resolver does not hit the deadline (only universes on which the model
+//	    needs fewer than modelRoundCap rounds are emitted)
 //	ALL P1..P5 in this order, first failure (used by the corpus)
 //	ES  every edge v -> w is labelled by a requirement that v places on w's package
-//	    (edge soundness; diagnostic, stronger than the property's text)
+//	    (edge soundness: the converse reading of P2/P3 — nothing but true-marker
+//	    requirements of the selected versions contributes edges; fails on the unchanged
+//	    tree exactly in class F-C08-stale)
 //
 // All of them hold vacuously on results other than "ok gerr=0 …" (err, timeout and
 // graph-level errors are allowed by the property).
@@ -29,7 +33,7 @@ import (
 type gnode struct{ name, ver, tok string }
 
 type gedge struct {
-	from, to     string // node tokens
+	from, to      string // node tokens
 	spec, env, ex string // hex / "~" tokens as printed
 }
 
@@ -356,7 +360,7 @@ func (c *caseData) verdict(oracle string) string {
 	return "unknown oracle " + oracle
 }
 
-var oracles = []string{"P1", "P2", "P3", "P4", "P5"}
+var oracles = []string{"P1", "P2", "P3", "P4", "P5", "ES"}
 
 func recheck(oracle string, ops, res []string) (bool, string) {
 	if oracle == "late" {
@@ -365,6 +369,13 @@ func recheck(oracle string, ops, res []string) (bool, string) {
 	}
 	if len(ops) != 1 {
 		return true, oracle + " needs one op"
+	}
+	if oracle == "T" {
+		// only universes on which the reference run needs < modelRoundCap rounds are emitted
+		if res[0] == "timeout" {
+			return true, "T: the real resolver hit the deadline on a universe the reference run finishes within a few thousand rounds"
+		}
+		return false, ""
 	}
 	c, ok := loadCase(ops[0], res[0])
 	if !ok {
